@@ -7,6 +7,7 @@ import (
 	"strings"
 	"sync"
 
+	"github.com/goghcrow/yae/compiler"
 	"github.com/goghcrow/yae/val"
 
 	m "verif/model"
@@ -208,3 +209,35 @@ func jsonString(s string) string {
 	b, _ := json.Marshal(s)
 	return string(b)
 }
+
+// runBackendsAST compiles the (desugared) tree directly, bypassing lexer and
+// parser (whose cost is quadratic in the source length: a 200 KB source takes
+// about a minute to lex). Used for the capacity classes only. The interpreter
+// needs the engine's run-time function table behind the environment, which
+// only the facade links, so it is not run in this mode.
+func runBackendsAST(c *ProgCase, r *CaseRun, bes []run.Backend) {
+	for _, be := range bes {
+		if be == run.Interp {
+			continue
+		}
+		en := run.NewEngine(be, c.Extra)
+		o := &run.Outcome{Be: be}
+		var cl compiler.Closure
+		if p := run.Guard(func() { cl = en.E.CompileExpr(run.ToAst(r.Core), run.TypeEnv(c.Env)) }); p != nil {
+			// CompileExpr reports errors by panicking (Compile converts them)
+			o.CompileErr = fmt.Errorf("%s", p.Text)
+		} else {
+			en.Tr.Reset()
+			ve := en.ValEnv(c.Vals)
+			o.RunPan = run.Guard(func() { o.Val = cl(ve) })
+			o.Trace = en.Tr.Snapshot()
+		}
+		br := &BackendRun{O: o}
+		if o.Compiled() && !o.Failed() {
+			br.Val, br.Probs = run.FromYaeVal(o.Val, r.RefType)
+		}
+		r.Runs = append(r.Runs, br)
+	}
+}
+
+const astModeFrom = 5000 // stress sizes above this are compiled from the tree
